@@ -19,6 +19,8 @@ EVIDENCE = dict(
          "chunk position (also inside embedded containers), for both initial values; the setting is logged at every "
          "stream call, at nested load entry/exit (observed by wrapping the names the library calls, from the check) "
          "and at return/raise together with the closed state; Trace_RVLoad validates the trace. "
+         "Also: a path naming a pipe (non-seekable stream), warnings turned into errors, sources that really carry out-of-range "
+         "values, nested loads started through the public load_chunk entry points. "
          "non-trivial = the load raises or involves a nested load.",
     explanation="fault_sequences: one fault per run at each enumerated position")
 
